@@ -133,6 +133,87 @@ theorem buildState_declares {sd : SchemaDoc} {st : LState} (h : buildState sd = 
 
 /- ---------------- roots ---------------- -/
 
+/-- `schema.Query` / `schema.Mutation` / `schema.Subscription` selected by the operation keyword -/
+def rootOf (r : Roots) (o : Bytes) : Option Name :=
+  if o == opQuery then r.query else if o == opMutation then r.mutation
+  else if o == opSubscription then r.subscription else none
+
+def isRootOp (o : Bytes) : Bool := o == opQuery || o == opMutation || o == opSubscription
+
+theorem opQuery_ne_opMutation : (opQuery == opMutation) = false := by decide
+theorem opQuery_ne_opSubscription : (opQuery == opSubscription) = false := by decide
+theorem opMutation_ne_opSubscription : (opMutation == opSubscription) = false := by decide
+theorem opMutation_ne_opQuery : (opMutation == opQuery) = false := by decide
+theorem opSubscription_ne_opQuery : (opSubscription == opQuery) = false := by decide
+theorem opSubscription_ne_opMutation : (opSubscription == opMutation) = false := by decide
+
+/-- one step of `setRoots` that does not fail: the entry point's type exists, its operation had no
+    root yet, and afterwards it has this one -/
+theorem setRoots_cons_ok {types : List (Name × Definition)} {e : OpTypeDef} {rest : List OpTypeDef} {r r' : Roots}
+    (h : setRoots types (e :: rest) r = .ok r') :
+    ∃ d, types.lookup e.type = some d ∧ ∃ r2, setRoots types rest r2 = .ok r' ∧
+      (isRootOp e.op = true → rootOf r e.op = none) ∧
+      ∀ o, rootOf r2 o = if isRootOp e.op && o == e.op then some d.name else rootOf r o := by
+  simp only [setRoots] at h
+  split at h
+  · simp at h
+  · rename_i d hd
+    refine ⟨d, hd, ?_⟩
+    split at h
+    · rename_i hq
+      have hq : e.op = opQuery := by simpa using hq
+      split at h
+      · simp at h
+      · rename_i hn
+        have hn : r.query = none := by simpa using hn
+        refine ⟨_, h, ?_, ?_⟩
+        · intro _; rw [hq]; simp [rootOf, hn]
+        · intro o
+          rw [hq]
+          by_cases ho : o = opQuery
+          · subst ho; simp [rootOf, isRootOp]
+          · have : (o == opQuery) = false := by simp [ho]
+            simp [rootOf, isRootOp, this]
+    · rename_i hq
+      have hq : (e.op == opQuery) = false := by simpa using hq
+      split at h
+      · rename_i hm
+        have hm : e.op = opMutation := by simpa using hm
+        split at h
+        · simp at h
+        · rename_i hn
+          have hn : r.mutation = none := by simpa using hn
+          refine ⟨_, h, ?_, ?_⟩
+          · intro _; rw [hm]; simp [rootOf, hn, opMutation_ne_opQuery]
+          · intro o
+            rw [hm]
+            by_cases ho : o = opMutation
+            · subst ho; simp [rootOf, isRootOp, opMutation_ne_opQuery]
+            · have h1 : (o == opMutation) = false := by simp [ho]
+              simp [rootOf, isRootOp, h1]
+      · rename_i hm
+        have hm : (e.op == opMutation) = false := by simpa using hm
+        split at h
+        · rename_i hs
+          have hs : e.op = opSubscription := by simpa using hs
+          split at h
+          · simp at h
+          · rename_i hn
+            have hn : r.subscription = none := by simpa using hn
+            refine ⟨_, h, ?_, ?_⟩
+            · intro _; rw [hs]; simp [rootOf, hn, opSubscription_ne_opQuery, opSubscription_ne_opMutation]
+            · intro o
+              rw [hs]
+              by_cases ho : o = opSubscription
+              · subst ho; simp [rootOf, isRootOp, opSubscription_ne_opQuery, opSubscription_ne_opMutation]
+              · have h1 : (o == opSubscription) = false := by simp [ho]
+                simp [rootOf, isRootOp, h1]
+        · rename_i hs
+          have hs : (e.op == opSubscription) = false := by simpa using hs
+          refine ⟨_, h, ?_, ?_⟩
+          · intro hroot; simp [isRootOp, hq, hm, hs] at hroot
+          · intro o; simp [isRootOp, hq, hm, hs]
+
 def RootsOK (types : List (Name × Definition)) (r : Roots) : Prop :=
   (∀ n, r.query = some n → (types.lookup n).isSome) ∧ (∀ n, r.mutation = some n → (types.lookup n).isSome) ∧
   (∀ n, r.subscription = some n → (types.lookup n).isSome)
@@ -148,15 +229,24 @@ theorem setRoots_ok {types : List (Name × Definition)} (hinv : KeysInv (·.name
     · rename_i d hd
       have hname : d.name = e.type := hinv.2 (e.type, d) (mem_of_lookup hd)
       have hres : (types.lookup d.name).isSome := by rw [hname, hd]; rfl
-      refine ih ?_ h
       obtain ⟨h1, h2, h3⟩ := hr
-      split
-      · exact ⟨fun n hn => by simp at hn; subst hn; exact hres, h2, h3⟩
-      · split
-        · exact ⟨h1, fun n hn => by simp at hn; subst hn; exact hres, h3⟩
-        · split
-          · exact ⟨h1, h2, fun n hn => by simp at hn; subst hn; exact hres⟩
-          · exact ⟨h1, h2, h3⟩
+      split at h
+      · split at h
+        · simp at h
+        · refine ih ?_ h
+          exact ⟨fun n hn => by simp at hn; subst hn; exact hres, h2, h3⟩
+      · split at h
+        · split at h
+          · simp at h
+          · refine ih ?_ h
+            exact ⟨h1, fun n hn => by simp at hn; subst hn; exact hres, h3⟩
+        · split at h
+          · split at h
+            · simp at h
+            · refine ih ?_ h
+              exact ⟨h1, h2, fun n hn => by simp at hn; subst hn; exact hres⟩
+          · refine ih ?_ h
+            exact ⟨h1, h2, h3⟩
 
 /-- directives that passed `validateDirectives … SCHEMA` -/
 def SchemaDirsOK (st : LState) (ds : List Directive) : Prop :=
